@@ -18,7 +18,7 @@ PKGS = ["./cmd/instance"]
 
 # deviation -> witness classes the model must exhibit with it (sequential configuration)
 DEV_SEQ = {"AliasDefaults": {"cache"}, "CollideEither": {"nondeterministic"}, "StripInPlace": {"argument"},
-           "EnumEarlyReturn": {"nondeterministic"}}
+           "StripRestore": {"argument"}, "DirtyScratch": {"history"}, "EnumEarlyReturn": {"nondeterministic"}}
 
 
 def hist_cases(recs, reps, targeted=False):
